@@ -45,6 +45,7 @@ fn small_file(path: &[&str], size: u32, kind: u8) -> FileSpec {
         symlink: None,
         mtime: 1_500_000_000,
         verify: None,
+        mode_as_int: 0,
     }
 }
 
